@@ -113,13 +113,27 @@ func cmdCheck(args []string) int {
 			tasks = append(tasks, &poolTask{task: task{Job: ji, Shard: s, NShard: n, Deadline: deadline.UnixMilli()}})
 		}
 	}
+	// light jobs first (few shards), heavy sharded jobs last: if the wall-clock budget ends the run early,
+	// what is cut is the tail of the most expensive searches, not whole cheap drivers
+	sort.SliceStable(tasks, func(i, j int) bool { return tasks[i].NShard < tasks[j].NShard })
 	// the seed only permutes the order in which tasks are handed out; the explored set is seed-independent
 	if seed != 0 && len(tasks) > 1 {
-		rot := seed % len(tasks)
-		if rot < 0 {
-			rot += len(tasks)
+		// rotate inside each weight class only
+		for lo := 0; lo < len(tasks); {
+			hi := lo
+			for hi < len(tasks) && tasks[hi].NShard == tasks[lo].NShard {
+				hi++
+			}
+			if n := hi - lo; n > 1 {
+				rot := seed % n
+				if rot < 0 {
+					rot += n
+				}
+				seg := append(append([]*poolTask{}, tasks[lo+rot:hi]...), tasks[lo:lo+rot]...)
+				copy(tasks[lo:hi], seg)
+			}
+			lo = hi
 		}
-		tasks = append(tasks[rot:], tasks[:rot]...)
 	}
 	if nworkers > len(tasks) {
 		nworkers = len(tasks)
